@@ -5,6 +5,7 @@ import RosuModel.Lemmas.CurveArc
 import RosuModel.Lemmas.CurveBudget
 import RosuModel.Lemmas.CurveTotal
 import RosuModel.Lemmas.CurveReal
+import RosuModel.Lemmas.CurveNaN
 
 /-!
 # C05 (slider path mathematics) — no panic, termination and vertex bounds of curve generation
@@ -217,5 +218,34 @@ theorem bezier_loop_can_spin : ¬ BezierLoopAlwaysTerminates := by
   intro h
   obtain ⟨fuel, hf⟩ := h Unit Unit spinArith #[⟨(), ()⟩, ⟨(), ()⟩, ⟨(), ()⟩] (by decide)
   exact hf (approximateBezier_spins fuel _ _ _)
+
+/-! ## the known finding `curve-nan-vertex` -/
+
+/-- "When `circular_arc_properties`' determinant test passes, the arc it produces has finite vertices." -/
+def ArcVerticesFiniteAfterTest : Prop :=
+  ∀ (b c d : Pos (Option Int)) (path : Array (Pos (Option Int))),
+    approximateArc nfArith 1 #[] b c d = .ok (some path) → ∀ v ∈ path.toList, v.x ≠ none ∧ v.y ≠ none
+
+/-- **`curve_nan_vertex_witness`** — it is FALSE on the model instantiated with `nfArith` (integers with
+`f32`'s 24-bit rounding of `+ − ×`, `none` = non-finite; `Lemmas/CurveNaN.lean`): for the inner
+perfect-curve segment `(3244,−2736), (3225,104), (3208,2645)` (determinant 1) the test passes, `d` cancels
+to 0 because `3225 · 5381` does not fit 24 bits, and `approximate_circular_arc` emits two NON-FINITE
+vertices instead of falling back to bezier.  Replayed on the real code by
+`corpus:witness-curve-arc-nonfinite-centre` (C05: every catch calculation then panics in `f32::clamp`),
+`curve-nan-vertex-arc-*` (C09) and the CURVE line `P-inner-det1-d-cancels` (IEEE instance, bit-exact). -/
+theorem curve_nan_vertex_witness : ¬ ArcVerticesFiniteAfterTest := by
+  intro h
+  obtain ⟨path, hp, hs, hv⟩ := curve_nan_vertex_witness_lemma
+  have hne : path.toList ≠ [] := by
+    intro e
+    have : path.toList.length = 2 := by rw [Array.length_toList]; exact hs
+    rw [e] at this
+    cases this
+  obtain ⟨v, hm⟩ := List.exists_mem_of_ne_nil _ hne
+  exact (h wB wC wD path hp v hm).1 (hv v hm).1
+
+/-- the arithmetic fact behind it: the product needs 25 bits and is rounded to even -/
+theorem curve_nan_vertex_rounding : roundInt24 (3225 * 5381) = 17353724 ∧ (3225 * 5381 : Int) = 17353725 :=
+  witness_product_rounds
 
 end Rosu.Curve
